@@ -552,6 +552,22 @@ fn cmd_lm(v: &Value) -> Value {
             "milp" => { let m = m.clone(); timed(move || sol_json(solve_milp_lp_problem(&m))) }
             "auto" => { let m = m.clone(); timed(move || sol_json(auto_solver(&m))) }
             "milp_with" => { let m = m.clone(); let o = milp_opts(&arg); timed(move || sol_json(solve_milp_lp_problem_with(&m, &o))) }
+            "microlp_builder" => {
+                // the builder's option-carrying solver object, through its Solver trait
+                let m = m.clone();
+                let o = milp_opts(&arg);
+                timed(move || {
+                    use rooc::Solver as _;
+                    let mut s = rooc::Microlp::new();
+                    if let Some(g) = o.mip_gap {
+                        s = s.with_mip_gap(g);
+                    }
+                    if let Some(l) = o.time_limit {
+                        s = s.with_time_limit(l);
+                    }
+                    sol_json(s.solve(&m))
+                })
+            }
             "lp" => guarded(|| json!(m.to_lp_format())),
             "text" => guarded(|| json!(m.to_string())),
             "eval" => guarded(|| {
